@@ -6,7 +6,68 @@ use std::io::Cursor;
 use std::ops::Bound;
 use std::panic::{catch_unwind, AssertUnwindSafe};
 
-use grenad::{Reader, ReaderCursor};
+use grenad::{MergeFunction, MergerBuilder, Reader, ReaderCursor};
+
+/// order-sensitive merge function: concatenation of the values in the order they are handed over
+struct Concat;
+impl MergeFunction for Concat {
+    type Error = std::convert::Infallible;
+    fn merge<'a>(&self, _key: &[u8], values: &[std::borrow::Cow<'a, [u8]>]) -> Result<std::borrow::Cow<'a, [u8]>, Self::Error> {
+        Ok(std::borrow::Cow::Owned(values.iter().flat_map(|v| v.iter().copied()).collect()))
+    }
+}
+
+/// Confirms a heap-order counterexample through the public API: every assignment of non-empty subsets of the key set to
+/// three sources is merged by the real Merger and compared with the oracle (keys ascending, each key's values
+/// concatenated in the order the sources were added).
+fn merge_search(keys: &[Vec<u8>]) -> Result<(), String> {
+    let mut ks: Vec<Vec<u8>> = keys.to_vec();
+    ks.push(vec![0x10]);
+    ks.push(vec![0x20]);
+    ks.push(vec![0x30]);
+    ks.sort();
+    ks.dedup();
+    ks.truncate(4);
+    let nk = ks.len();
+    let subsets: Vec<u32> = (1..(1u32 << nk)).collect();
+    for &a in &subsets {
+        for &b in &subsets {
+            for &c in &subsets {
+                let masks = [a, b, c];
+                let mut builder = MergerBuilder::new(Concat);
+                for (si, m) in masks.iter().enumerate() {
+                    let mut w = grenad::Writer::memory();
+                    for (ki, k) in ks.iter().enumerate() {
+                        if m & (1 << ki) != 0 {
+                            w.insert(k, [b'a' + si as u8]).map_err(|e| e.to_string())?;
+                        }
+                    }
+                    let bytes = w.into_inner().map_err(|e| e.to_string())?;
+                    builder.push(Reader::new(Cursor::new(bytes)).map_err(|e| e.to_string())?.into_cursor().map_err(|e| e.to_string())?);
+                }
+                let mut it = builder.build().into_stream_merger_iter().map_err(|e| e.to_string())?;
+                for (ki, k) in ks.iter().enumerate() {
+                    let expect: Vec<u8> = masks.iter().enumerate().filter(|(_, m)| *m & (1 << ki) != 0).map(|(si, _)| b'a' + si as u8).collect();
+                    if expect.is_empty() {
+                        continue;
+                    }
+                    match it.next().map_err(|e| e.to_string())? {
+                        Some((gk, gv)) => {
+                            if gk != k.as_slice() || gv != expect.as_slice() {
+                                return Err(format!("sources {:?} over keys {:?}: merged entry ({:?}, {:?}), expected ({:?}, {:?})", masks, ks, gk, gv, k, expect));
+                            }
+                        }
+                        None => return Err(format!("sources {:?}: merger stopped early", masks)),
+                    }
+                }
+                if it.next().map_err(|e| e.to_string())?.is_some() {
+                    return Err(format!("sources {:?}: merger yields extra entries", masks));
+                }
+            }
+        }
+    }
+    Ok(())
+}
 
 #[derive(Debug, Clone)]
 enum Node {
@@ -354,7 +415,7 @@ fn main() {
         }
     }
     for w in keys.windows(2) {
-        if w[0] >= w[1] {
+        if mode != "mergesearch" && w[0] >= w[1] {
             println!("SPEC-INVALID keys not strictly ascending");
             std::process::exit(3);
         }
@@ -363,6 +424,7 @@ fn main() {
     let file = build_file(&tree, levels, version, &keys, &vals, interval);
     let res = catch_unwind(AssertUnwindSafe(|| -> Result<(), String> {
         match mode.as_str() {
+            "mergesearch" => merge_search(&keys),
             "cursor" => run_cursor(file, &ops, &keys, &vals, &sym),
             "search" => {
                 let depth: usize = args.get(0).and_then(|a| a.parse().ok()).unwrap_or(6);
